@@ -73,7 +73,8 @@ RULE = ("random abelian and fermionic arrays (all symmetries, sparse, pending si
         "disjoint ordered axis groups (single-axis, non-adjacent, permuted, empty, second-level fusing of already "
         "fused axes), strategies insert/concat; compared with the Lean model (value view + sub-index tables), and on "
         "the real code: address map read from the fused index's own table, strategies agree, unfuse_all(fuse) = "
-        "transpose. non-trivial: a multi-axis group and (a missing valid sector or permuted axes)")
+        "transpose. non-trivial: a multi-axis group and (a missing valid sector or permuted axes)"
+        '; fuse twice, conjugate, unfuse twice (abelian: equals conjugating first); twin histories incl. fuse(x) then fuse(x.conj()) compared with the cache disabled')
 ANCHORS = {"abelian_core.py": ["calc_fuse_group_info", "calc_fuse_block_info", "_fuse_blocks_via_insert",
                                "_fuse_blocks_via_concat", "_fuse_core", "fuse", "unfuse", "unfuse_all"],
            "fermionic_core.py": ["fuse", "unfuse"]}
